@@ -95,13 +95,25 @@ fn format_standard(value: f64) -> String {
     add_thousand_separators(&formatted)
 }
 
+/// Decimal exponent of a positive finite number: the `e` with `10^e <= abs_value < 10^(e+1)`.
+/// `log10` alone rounds up to the next integer for values a few ulps below a power of ten
+/// (e.g. `999999999999998.9_f64.log10() == 15.0`), so the estimate is corrected downwards.
+fn decimal_exponent(abs_value: f64) -> i32 {
+    let estimate = abs_value.log10().floor() as i32;
+    if abs_value < 10_f64.powi(estimate) {
+        estimate - 1
+    } else {
+        estimate
+    }
+}
+
 /// Round a number to n significant figures
 fn round_to_significant_figures(value: f64, sig_figs: u32) -> f64 {
     if value == 0.0 {
         return 0.0;
     }
 
-    let magnitude = value.abs().log10().floor() as i32;
+    let magnitude = decimal_exponent(value.abs());
     let scale = 10_f64.powi(sig_figs as i32 - 1 - magnitude);
     (value * scale).round() / scale
 }
@@ -111,10 +123,10 @@ fn format_float_significant(value: f64, max_sig_figs: usize) -> String {
     // Determine how many decimal places we need
     let abs_value = value.abs();
     let magnitude = if abs_value >= 1.0 {
-        abs_value.log10().floor() as i32 + 1
+        decimal_exponent(abs_value) + 1
     } else {
         // For numbers < 1, count leading zeros
-        -(abs_value.log10().floor() as i32)
+        -decimal_exponent(abs_value)
     };
 
     // Calculate decimal places needed for significant figures
